@@ -112,9 +112,8 @@ theorem parseExtends_panic {e : Val} {s : String} (h : parseExtends e = .panic s
   unfold parseExtends at h
   split at h <;> try cases h
   split at h
-  · split at h <;> try cases h
-    rfl
-  · cases h; rfl
+  · split at h <;> cases h
+  · cases h
 
 theorem resolveBase_panic {E : Env} {name ref : String} {file : Option String} {S : KVs} {s : String}
     (h : resolveBase E name ref file S = .panic s) : ∃ f, fsLookup f E.fs = some (.panic s) := by
